@@ -1,6 +1,7 @@
 package mon
 
 import (
+	"mime"
 	"bytes"
 	"encoding/json"
 	"encoding/xml"
@@ -164,6 +165,11 @@ func runC18(e *Env) {
 		{"application/xml", "xml"}, {"text/xml", "xml"}, {"text/xml; charset=utf-8", "xml"},
 		{"text/plain", "other"}, {"application/yaml", "other"}, {"application/octet-stream", "other"}, {"", "other"},
 		{"application/form-data", "other"}, {"text/html", "other"}, {"application/x-protobuf", "other"},
+		// unknown media types that merely contain the text of a supported one (in a parameter, as a prefix)
+		{"text/plain; note=a/json", "other"}, {"application/octet-stream; was=application/json", "other"}, {"application/jsonl", "other"},
+		{"text/x-www-form-urlencoded", "other"}, {"application/x-www-form-urlencoded-v2", "other"}, {"application/xml-dtd", "other"},
+		// a supported media type whose parameter mentions another one
+		{"application/xml; profile=\"http://example.com/json\"", "xml"}, {"application/json; note=\"was text/xml\"", "json"},
 	}
 
 	bodyFor := func(kind string, name string) (ct string, body []byte) {
@@ -461,6 +467,12 @@ func runC18(e *Env) {
 		}
 		if bodyMethods[method] && ct.Kind == "other" && err == nil {
 			t.Fail("unsupported-type-accepted", "%s with Content-Type %q must be refused; bound %+v without error", method, ctype, got)
+		}
+		// a multipart Content-Type without a usable boundary cannot be read as a multipart form: an error
+		if bodyMethods[method] && ct.Kind == "multipart" {
+			if _, params, perr := mime.ParseMediaType(ctype); (perr != nil || params["boundary"] == "") && err == nil {
+				t.Fail("malformed-multipart-header-accepted", "%s with Content-Type %q (no usable boundary parameter) and body %q: the binder reported success, bound %+v", method, ctype, body, got)
+			}
 		}
 		// a negative slice index in a key of the selected source can never be bound: an error, not silence
 		src := ""
